@@ -15,31 +15,36 @@ import (
 
 var (
 	verifYieldCounter atomic.Uint64
-	verifYieldSeed    uint64
-	verifYieldEvery   uint64
+	verifYieldSeed    atomic.Uint64
+	verifYieldEvery   atomic.Uint64
 )
 
 func init() {
-	verifYieldSeed, _ = strconv.ParseUint(os.Getenv("VERIF_YIELD_SEED"), 10, 64)
-	verifYieldEvery, _ = strconv.ParseUint(os.Getenv("VERIF_YIELD_EVERY"), 10, 64)
+	seed, _ := strconv.ParseUint(os.Getenv("VERIF_YIELD_SEED"), 10, 64)
+	every, _ := strconv.ParseUint(os.Getenv("VERIF_YIELD_EVERY"), 10, 64)
+
+	verifYieldSeed.Store(seed)
+	verifYieldEvery.Store(every)
 }
 
 // VerifSetYield changes the perturbation parameters between programs run in one process.
 func VerifSetYield(seed, every uint64) {
-	verifYieldSeed, verifYieldEvery = seed, every
+	verifYieldSeed.Store(seed)
+	verifYieldEvery.Store(every)
 	verifYieldCounter.Store(0)
 }
 
 func verifYield() {
-	if verifYieldEvery == 0 {
+	every := verifYieldEvery.Load()
+	if every == 0 {
 		return
 	}
 
 	n := verifYieldCounter.Add(1)
-	x := (n + verifYieldSeed) * 0x9E3779B97F4A7C15
+	x := (n + verifYieldSeed.Load()) * 0x9E3779B97F4A7C15
 	x ^= x >> 29
 
-	if x%verifYieldEvery == 0 {
+	if x%every == 0 {
 		runtime.Gosched()
 	}
 }
